@@ -294,7 +294,10 @@ impl std::fmt::Display for PackageListEntry {
             "{} {} {} {}",
             self.package, self.package_type, self.section, self.priority
         )?;
-        for (k, v) in &self.extra {
+        // sorted by key: a HashMap iterates in an arbitrary order, and the same value must always print the same text
+        let mut extra: Vec<(&String, &String)> = self.extra.iter().collect();
+        extra.sort();
+        for (k, v) in extra {
             write!(f, " {}={}", k, v)?;
         }
         Ok(())
